@@ -1,7 +1,1051 @@
-//! C13 — harness not built yet.
+//! C13 — unknown-word candidates follow the character-class definition.
+//!
+//! One case = (generated char.def / unk.def / provider list / lexicon, text).  The implementation is observed at three
+//! levels: the built `InputBuffer` (classes, can_bow, cat_continuous_len), every provider through the public
+//! `OovProviderPlugin` trait (all/sampled offsets x several `CreatedWords` x pre-filled result vectors), and the lattice of a
+//! real tokenization through the `verif` hook.  The Coq term re-computes all of it with the model and evaluates the
+//! property predicates (continuity = left-to-right specification, MeCab candidates = prescription, a candidate at every
+//! processed position) on the implementation's output.
 use crate::common::*;
+use serde_json::{json, Value};
+use std::collections::BTreeMap;
+use std::path::PathBuf;
+use sudachi::analysis::created::CreatedWords;
+use sudachi::analysis::mlist::MorphemeList;
+use sudachi::analysis::node::{LatticeNode, RightId};
+use sudachi::analysis::stateful_tokenizer::StatefulTokenizer;
+use sudachi::analysis::stateless_tokenizer::DictionaryAccess;
+use sudachi::analysis::{Mode, Node};
+use sudachi::config::ConfigBuilder;
+use sudachi::dic::build::DictBuilder;
+use sudachi::dic::dictionary::JapaneseDictionary;
+use sudachi::dic::storage::{Storage, SudachiDicData};
+use sudachi::dic::word_id::WordId;
+use sudachi::input_text::{InputBuffer, InputTextIndex};
 
-pub fn run(_args: &Args) {
-    eprintln!("no harness for C13 yet");
-    std::process::exit(2);
+const CLASSES: [(&str, u32); 18] = [
+    ("DEFAULT", 1),
+    ("SPACE", 2),
+    ("KANJI", 4),
+    ("SYMBOL", 8),
+    ("NUMERIC", 16),
+    ("ALPHA", 32),
+    ("HIRAGANA", 64),
+    ("KATAKANA", 128),
+    ("KANJINUMERIC", 256),
+    ("GREEK", 512),
+    ("CYRILLIC", 1024),
+    ("USER1", 2048),
+    ("USER2", 4096),
+    ("USER3", 8192),
+    ("USER4", 16384),
+    ("NOOOVBOW", 1 << 30),
+    ("NOOOVBOW2", 1 << 31),
+    ("ALL", 0x3FFF_FFFF),
+];
+const C_NOOOVBOW: usize = 15;
+const C_NOOOVBOW2: usize = 16;
+const C_ALL: usize = 17;
+
+/// (code point, classes in a natural definition, is a mark/modifier)
+const ALPHABET: [(char, &[usize], bool); 24] = [
+    ('a', &[5], false),
+    ('b', &[5], false),
+    ('c', &[5], false),
+    ('e', &[5], false),
+    ('α', &[9], false),
+    ('я', &[10], false),
+    ('1', &[4], false),
+    ('2', &[4], false),
+    ('京', &[2], false),
+    ('東', &[2], false),
+    ('都', &[2], false),
+    ('一', &[2, 8], false),
+    ('に', &[6], false),
+    ('た', &[6], false),
+    ('ア', &[7], false),
+    ('ァ', &[7, 15], false),
+    (' ', &[1], false),
+    ('!', &[3], false),
+    ('👍', &[0], false),
+    ('\u{301}', &[17, 15], true),
+    ('\u{3099}', &[17, 15], true),
+    ('\u{1F3FB}', &[17, 15], true),
+    ('\u{FE0F}', &[17, 15], true),
+    ('\u{200D}', &[17, 16], true),
+];
+
+const POS_POOL: [[&str; 6]; 5] = [
+    ["名詞", "普通名詞", "一般", "*", "*", "*"],
+    ["名詞", "数詞", "*", "*", "*", "*"],
+    ["補助記号", "一般", "*", "*", "*", "*"],
+    ["名詞", "固有名詞", "OOV", "*", "*", "*"],
+    ["感動詞", "REGEX", "*", "*", "*", "*"],
+];
+const WORDS: [&str; 14] = ["た", "に", "京都", "東京都", "東", "東京", "a", "ab", "abc", "アァ", "1", "e\u{301}", "👍", "12"];
+const NIDS: i64 = 4;
+
+#[derive(Clone, Debug)]
+struct OovDef {
+    left: i64,
+    right: i64,
+    cost: i64,
+    pos: usize,
+}
+#[derive(Clone, Debug)]
+struct ClassInfo {
+    class: usize,
+    invoke: bool,
+    group: bool,
+    length: u32,
+}
+#[derive(Clone, Debug)]
+struct Atom {
+    set: Vec<char>,
+    min: usize,
+    max: usize, // usize::MAX = unbounded
+}
+#[derive(Clone, Debug)]
+struct Pattern {
+    alts: Vec<Vec<Atom>>,
+}
+#[derive(Clone, Debug)]
+enum Prov {
+    Mecab,
+    Simple(OovDef),
+    Regex { def: OovDef, pat: Pattern, maxlen: Option<usize>, strict: Option<bool>, debug: bool },
+}
+
+struct Config {
+    seed: u64,
+    chars: BTreeMap<char, Vec<usize>>,
+    infos: Vec<ClassInfo>,
+    unks: Vec<(usize, OovDef)>,
+    provs: Vec<Prov>,
+    words: Vec<String>,
+    char_def: String,
+    unk_def: String,
+    plugins: Value,
+    lex: String,
+    matrix: String,
+    dict: Option<JapaneseDictionary>,
+    load_error: Option<String>,
+}
+
+fn bits(cs: &[usize]) -> u32 {
+    cs.iter().fold(0, |a, c| a | CLASSES[*c].1)
+}
+
+fn gen_def(rng: &mut Rng) -> OovDef {
+    OovDef { left: rng.below(NIDS as u64) as i64, right: rng.below(NIDS as u64) as i64, cost: rng.range(-2000, 20000), pos: rng.below(POS_POOL.len() as u64) as usize }
+}
+
+fn render_set(set: &[char]) -> String {
+    let mut s = String::from("[");
+    for c in set {
+        s.push(*c);
+    }
+    s.push(']');
+    s
+}
+fn render_pattern(p: &Pattern) -> String {
+    let mut alts = vec![];
+    for alt in &p.alts {
+        let mut s = String::new();
+        for a in alt {
+            s.push_str(&render_set(&a.set));
+            match (a.min, a.max) {
+                (1, 1) => {}
+                (1, usize::MAX) => s.push('+'),
+                (0, usize::MAX) => s.push('*'),
+                (m, n) => s.push_str(&format!("{{{},{}}}", m, n)),
+            }
+        }
+        alts.push(s);
+    }
+    alts.join("|")
+}
+
+/// greedy backtracking match of a sequence of quantified sets at `pos`; returns the end
+fn match_seq(atoms: &[Atom], chars: &[char], pos: usize) -> Option<usize> {
+    if atoms.is_empty() {
+        return Some(pos);
+    }
+    let a = &atoms[0];
+    let mut n = 0;
+    while pos + n < chars.len() && n < a.max && a.set.contains(&chars[pos + n]) {
+        n += 1;
+    }
+    loop {
+        if n < a.min {
+            return None;
+        }
+        if let Some(e) = match_seq(&atoms[1..], chars, pos + n) {
+            return Some(e);
+        }
+        if n == 0 {
+            return None;
+        }
+        n -= 1;
+    }
+}
+/// independent re-implementation of `Regex::find` for the generated pattern family ("^" binds to the first alternative only)
+fn find(p: &Pattern, chars: &[char]) -> Option<(usize, usize)> {
+    for start in 0..=chars.len() {
+        for (k, alt) in p.alts.iter().enumerate() {
+            if k == 0 && start != 0 {
+                continue;
+            }
+            if let Some(e) = match_seq(alt, chars, start) {
+                return Some((start, e));
+            }
+        }
+    }
+    None
+}
+
+fn gen_set(rng: &mut Rng, chars: &[char]) -> Vec<char> {
+    let n = 1 + rng.below(4) as usize;
+    let mut s = vec![];
+    for _ in 0..n {
+        let c = *rng.pick(chars);
+        if !s.contains(&c) {
+            s.push(c);
+        }
+    }
+    s
+}
+fn gen_pattern(rng: &mut Rng) -> Pattern {
+    let chars: Vec<char> = ALPHABET.iter().map(|x| x.0).filter(|c| *c != ' ').collect();
+    let unb = usize::MAX;
+    let k = rng.below(20);
+    let alts = match k {
+        0..=8 => vec![vec![Atom { set: gen_set(rng, &chars), min: 1, max: unb }]],
+        9..=10 => {
+            let m = 1 + rng.below(3) as usize;
+            vec![vec![Atom { set: gen_set(rng, &chars), min: m, max: m + rng.below(4) as usize }]]
+        }
+        11..=13 => vec![vec![Atom { set: gen_set(rng, &chars), min: 1, max: unb }, Atom { set: gen_set(rng, &chars), min: 1, max: 1 }]],
+        14..=15 => vec![vec![Atom { set: gen_set(rng, &chars), min: 1, max: 1 }, Atom { set: gen_set(rng, &chars), min: 0, max: unb }]],
+        16..=18 => vec![vec![Atom { set: gen_set(rng, &chars), min: 1, max: unb }], vec![Atom { set: gen_set(rng, &chars), min: 1, max: unb }]],
+        _ => vec![vec![Atom { set: gen_set(rng, &chars), min: 0, max: unb }]], // can match the empty string
+    };
+    Pattern { alts }
+}
+
+fn gen_config(seed: u64, work: &PathBuf, directed: u32) -> Config {
+    let mut rng = Rng::new(seed);
+    // ---- character classes
+    let natural = directed != 0 || rng.chance(1, 3);
+    let palette: Vec<usize> = vec![0, 2, 3, 4, 5, 6, 7, 9, 10, 11, 12, 1, 8];
+    let mut chars = BTreeMap::new();
+    for (c, nat, mark) in ALPHABET.iter() {
+        let cls: Vec<usize> = if natural {
+            nat.to_vec()
+        } else {
+            let mut v = vec![];
+            if *mark && rng.chance(2, 3) {
+                v.push(C_ALL);
+                v.push(if rng.chance(1, 4) { C_NOOOVBOW2 } else { C_NOOOVBOW });
+            } else {
+                let n = match rng.below(10) {
+                    0 => 0,
+                    1..=5 => 1,
+                    6..=8 => 2,
+                    _ => 3,
+                };
+                for _ in 0..n {
+                    let span = 6 + rng.below(8);
+                    let k = palette[rng.below(span) as usize % palette.len()];
+                    if !v.contains(&k) {
+                        v.push(k);
+                    }
+                }
+                if rng.chance(1, 25) {
+                    v.push(C_ALL);
+                }
+                if rng.chance(1, 14) {
+                    v.push(C_NOOOVBOW);
+                }
+                if rng.chance(1, 30) {
+                    v.push(C_NOOOVBOW2);
+                }
+            }
+            v
+        };
+        chars.insert(*c, cls);
+    }
+    // ---- class infos (char.def header) and unk.def
+    let mut infos = vec![];
+    let mut classes_used: Vec<usize> = vec![0];
+    for v in chars.values() {
+        for k in v {
+            if !classes_used.contains(k) {
+                classes_used.push(*k);
+            }
+        }
+    }
+    for k in &classes_used {
+        if *k != 0 && rng.chance(1, 7) {
+            continue; // a class of the text without definition
+        }
+        let length = match rng.below(8) {
+            0..=2 => 0,
+            3..=4 => 1,
+            5 => 2,
+            6 => 3,
+            _ => 1 + rng.below(80) as u32,
+        };
+        infos.push(ClassInfo { class: *k, invoke: rng.chance(1, 2), group: rng.chance(1, 2), length });
+    }
+    let mut unks = vec![];
+    for ci in &infos {
+        let n = match rng.below(8) {
+            0 => 0,
+            1..=5 => 1,
+            6 => 2,
+            _ => 3,
+        };
+        for _ in 0..n {
+            unks.push((ci.class, gen_def(&mut rng)));
+        }
+    }
+    if directed != 0 {
+        // the shape of the shipped definition: every class grouped, ALPHA/NUMERIC always invoked
+        infos.clear();
+        unks.clear();
+        for k in [0usize, 1, 2, 3, 4, 5, 6, 7, 8, 9, 10] {
+            infos.push(ClassInfo { class: k, invoke: k == 4 || k == 5, group: true, length: if k == 2 { 3 } else { 0 } });
+            unks.push((k, OovDef { left: (k % 4) as i64, right: (k % 4) as i64, cost: 3000 + k as i64, pos: k % 3 }));
+        }
+    }
+    // shuffle unk lines a little so that lines of one class are not adjacent
+    if unks.len() > 2 && rng.chance(1, 2) {
+        let i = rng.below(unks.len() as u64) as usize;
+        let j = rng.below(unks.len() as u64) as usize;
+        unks.swap(i, j);
+    }
+    let mut char_def = String::from("# generated by the C13 harness\n");
+    for ci in &infos {
+        char_def.push_str(&format!("{} {} {} {}\n", CLASSES[ci.class].0, ci.invoke as u8, ci.group as u8, ci.length));
+    }
+    for (c, cls) in &chars {
+        if cls.is_empty() {
+            continue;
+        }
+        if cls.len() > 1 && rng.chance(1, 3) {
+            for k in cls {
+                char_def.push_str(&format!("0x{:04X} {}\n", *c as u32, CLASSES[*k].0));
+            }
+        } else {
+            let names: Vec<&str> = cls.iter().map(|k| CLASSES[*k].0).collect();
+            char_def.push_str(&format!("0x{:04X} {}\n", *c as u32, names.join(" ")));
+        }
+    }
+    let mut unk_def = String::new();
+    for (k, d) in &unks {
+        unk_def.push_str(&format!("{},{},{},{},{}\n", CLASSES[*k].0, d.left, d.right, d.cost, POS_POOL[d.pos].join(",")));
+    }
+    // ---- providers
+    let mut provs = vec![];
+    if directed != 0 {
+        provs.push(Prov::Mecab);
+        provs.push(Prov::Regex {
+            def: OovDef { left: 2, right: 2, cost: -100, pos: 4 },
+            pat: Pattern { alts: vec![vec![Atom { set: vec!['a', 'b', '1', '2'], min: 1, max: usize::MAX }]] },
+            maxlen: Some(400),
+            strict: Some(false),
+            debug: false,
+        });
+        provs.push(Prov::Simple(OovDef { left: 1, right: 1, cost: 6000, pos: 0 }));
+    } else {
+        let n = match rng.below(20) {
+            0..=2 => 1,
+            3..=11 => 2,
+            _ => 3,
+        };
+        for i in 0..n {
+            let last = i + 1 == n;
+            let k = if last && rng.chance(3, 4) { 1 } else { rng.below(3) };
+            provs.push(match k {
+                0 => Prov::Mecab,
+                1 => Prov::Simple(gen_def(&mut rng)),
+                _ => Prov::Regex {
+                    def: gen_def(&mut rng),
+                    pat: gen_pattern(&mut rng),
+                    maxlen: match rng.below(6) {
+                        0 => Some(1),
+                        1 => Some(2 + rng.below(4) as usize),
+                        2 | 3 => Some(400),
+                        _ => None,
+                    },
+                    strict: match rng.below(3) {
+                        0 => Some(true),
+                        1 => Some(false),
+                        _ => None,
+                    },
+                    debug: rng.chance(1, 5),
+                },
+            });
+        }
+    }
+    let mut pj = vec![];
+    for p in &provs {
+        pj.push(match p {
+            Prov::Mecab => json!({"class": "com.worksap.nlp.sudachi.MeCabOovPlugin", "charDef": "char.def", "unkDef": "unk.def", "userPOS": "allow"}),
+            Prov::Simple(d) => json!({"class": "com.worksap.nlp.sudachi.SimpleOovPlugin", "oovPOS": POS_POOL[d.pos], "leftId": d.left, "rightId": d.right, "cost": d.cost, "userPOS": "allow"}),
+            Prov::Regex { def, pat, maxlen, strict, debug } => {
+                let mut v = json!({"class": "com.worksap.nlp.sudachi.RegexOovProvider", "oovPOS": POS_POOL[def.pos], "leftId": def.left, "rightId": def.right,
+                                   "cost": def.cost, "userPOS": "allow", "regex": render_pattern(pat), "debug": debug});
+                if let Some(m) = maxlen {
+                    v["maxLength"] = json!(m);
+                }
+                if let Some(s) = strict {
+                    v["boundaries"] = json!(if *s { "strict" } else { "relaxed" });
+                }
+                v
+            }
+        });
+    }
+    // ---- lexicon and matrix
+    let mut words: Vec<String> = vec![];
+    for w in WORDS.iter() {
+        if rng.chance(1, 2) {
+            words.push(w.to_string());
+            if rng.chance(1, 8) {
+                words.push(w.to_string()); // homograph
+            }
+        }
+    }
+    if words.is_empty() {
+        words.push("た".to_string());
+    }
+    let mut lex = String::new();
+    for w in &words {
+        lex.push_str(&format!("{},{},{},{},{},名詞,普通名詞,一般,*,*,*,ア,{},*,A,*,*,*,*\n", w, rng.below(NIDS as u64), rng.below(NIDS as u64), rng.range(0, 9000), w, w));
+    }
+    let mut matrix = format!("{} {}\n", NIDS, NIDS);
+    for l in 0..NIDS {
+        for r in 0..NIDS {
+            matrix.push_str(&format!("{} {} {}\n", l, r, rng.range(-300, 900)));
+        }
+    }
+    let plugins = Value::Array(pj);
+    let mut cfg = Config { seed, chars, infos, unks, provs, words, char_def, unk_def, plugins, lex, matrix, dict: None, load_error: None };
+    // ---- load through the public API
+    // one directory per process: quick and thorough runs may overlap
+    let dir = work.join(format!("c13res-{}", std::process::id()));
+    std::fs::create_dir_all(&dir).unwrap();
+    std::fs::write(dir.join("char.def"), &cfg.char_def).unwrap();
+    std::fs::write(dir.join("unk.def"), &cfg.unk_def).unwrap();
+    let cj = json!({"path": dir.to_string_lossy(), "characterDefinitionFile": "char.def", "oovProviderPlugin": cfg.plugins});
+    let r = catch(|| -> Result<JapaneseDictionary, String> {
+        let mut b = DictBuilder::new_system();
+        b.read_conn(cfg.matrix.as_bytes()).map_err(|e| format!("{:?}", e))?;
+        b.read_lexicon(cfg.lex.as_bytes()).map_err(|e| format!("{:?}", e))?;
+        b.resolve().map_err(|e| format!("{:?}", e))?;
+        let mut bytes = Vec::new();
+        b.compile(&mut bytes).map_err(|e| format!("{:?}", e))?;
+        let c = ConfigBuilder::from_bytes(cj.to_string().as_bytes()).map_err(|e| format!("{:?}", e))?.build();
+        JapaneseDictionary::from_cfg_storage(&c, SudachiDicData::new(Storage::Owned(bytes))).map_err(|e| format!("{:?}", e))
+    });
+    match r {
+        Ok(Ok(d)) => cfg.dict = Some(d),
+        Ok(Err(e)) => cfg.load_error = Some(e),
+        Err(p) => cfg.load_error = Some(format!("panic: {}", p)),
+    }
+    cfg
+}
+
+fn gen_text(rng: &mut Rng, cfg: &Config, directed: u32) -> String {
+    match directed {
+        1 => return "👍\u{1F3FB}京".to_string(),
+        2 => return "e\u{301}京".to_string(),
+        3 => return "a\u{200D}\u{200D}京b".to_string(),
+        4 => return "アァ\u{3099}ア東京都に".to_string(),
+        5 => return "a".repeat(70) + "京",
+        6 => return "12e\u{301}\u{301}ab!".to_string(),
+        _ => {}
+    }
+    let bases: Vec<char> = ALPHABET.iter().filter(|x| !x.2).map(|x| x.0).collect();
+    let marks: Vec<char> = ALPHABET.iter().filter(|x| x.2).map(|x| x.0).collect();
+    let mut s = String::new();
+    let kind = rng.below(20);
+    if kind == 0 {
+        // a run longer than 64 (preferably of a character a configured pattern matches)
+        let mut c = *rng.pick(&bases);
+        for p in &cfg.provs {
+            if let Prov::Regex { pat, .. } = p {
+                if rng.chance(3, 4) {
+                    c = pat.alts[0][0].set[0];
+                }
+            }
+        }
+        let n = 60 + rng.below(30) as usize;
+        for i in 0..n {
+            s.push(c);
+            if i == 40 && rng.chance(1, 3) {
+                s.push(*rng.pick(&marks));
+            }
+        }
+        if rng.chance(1, 2) {
+            s.push(*rng.pick(&bases));
+        }
+        return s;
+    }
+    let target = 1 + rng.below(if kind < 4 { 4 } else { 14 }) as usize;
+    let mut n = 0;
+    while n < target {
+        match rng.below(10) {
+            0..=2 => {
+                // a dictionary word
+                let w = rng.pick(&cfg.words).clone();
+                n += w.chars().count();
+                s.push_str(&w);
+            }
+            3..=6 => {
+                // a short run of one base character or of characters sharing a class
+                let c = *rng.pick(&bases);
+                let k = 1 + rng.below(4) as usize;
+                for _ in 0..k {
+                    if rng.chance(1, 3) {
+                        let same: Vec<char> = bases.iter().copied().filter(|b| bits(&cfg.chars[b]) & bits(&cfg.chars[&c]) != 0).collect();
+                        s.push(if same.is_empty() { c } else { *rng.pick(&same) });
+                    } else {
+                        s.push(c);
+                    }
+                    n += 1;
+                }
+            }
+            7..=8 => {
+                // base + marks/modifiers
+                s.push(*rng.pick(&bases));
+                n += 1;
+                for _ in 0..1 + rng.below(2) {
+                    s.push(*rng.pick(&marks));
+                    n += 1;
+                }
+            }
+            _ => {
+                s.push(*rng.pick(&marks));
+                n += 1;
+            }
+        }
+    }
+    s
+}
+
+// ---------- Coq printing ----------
+fn cnat(x: usize) -> String {
+    format!("{}%nat", x)
+}
+fn cdef(d: &OovDef) -> String {
+    format!("(mkOov {} {} {} {})", cn(d.left as u64), cn(d.right as u64), cz(d.cost), cn(d.pos as u64))
+}
+#[derive(Clone, Debug, PartialEq)]
+struct ONode {
+    begin: usize,
+    end: usize,
+    left: u16,
+    right: u16,
+    cost: i16,
+    pos: usize, // index into POS_POOL; usize::MAX when the id names no pool entry
+    dict: bool,
+}
+fn cnode(n: &ONode) -> String {
+    if n.dict {
+        format!("(dict_node {} {})", cnat(n.begin), cnat(n.end))
+    } else {
+        format!("(mkNode {} {} {} {} {} {})", cnat(n.begin), cnat(n.end), cn(n.left), cn(n.right), cz(n.cost as i64), cn(n.pos as u64))
+    }
+}
+fn cres<T>(r: &Result<Result<T, String>, String>, f: impl Fn(&T) -> String) -> String {
+    match r {
+        Ok(Ok(v)) => format!("(ROk {})", f(v)),
+        Ok(Err(_)) => "RErr".to_string(),
+        Err(_) => "RPanic".to_string(),
+    }
+}
+
+fn pos_index(dict: &JapaneseDictionary, id: u32) -> usize {
+    let g = dict.grammar();
+    if (id as usize) >= g.pos_list.len() {
+        return usize::MAX;
+    }
+    let comps = g.pos_components(id as u16);
+    POS_POOL.iter().position(|p| p.iter().zip(comps.iter()).all(|(a, b)| a == b) && comps.len() == 6).unwrap_or(usize::MAX)
+}
+
+fn to_onode(dict: &JapaneseDictionary, n: &Node) -> ONode {
+    let w = n.word_id();
+    ONode { begin: n.begin(), end: n.end(), left: n.left_id(), right: n.right_id(), cost: n.cost(), pos: if w.is_oov() { pos_index(dict, w.word()) } else { 0 }, dict: !w.is_oov() }
+}
+
+struct CaseOut {
+    term: String,
+    desc: Value,
+    nontrivial: bool,
+    fails: Vec<String>,
+    tags: Vec<String>,
+}
+
+fn run_case(cfg: &Config, text: &str, rng: &mut Rng, verbose: bool) -> CaseOut {
+    let dict = cfg.dict.as_ref().unwrap();
+    let mut fails = vec![];
+    let mut tags = vec![];
+    let chars: Vec<char> = text.chars().collect();
+    let len = chars.len();
+    // ---------------- buffer level
+    let mut buf = InputBuffer::from(text);
+    buf.build(dict.grammar()).unwrap();
+    let cats: Vec<u32> = (0..len).map(|i| buf.cat_at_char(i).bits()).collect();
+    let conts: Vec<usize> = (0..len).map(|i| buf.cat_continuous_len(i)).collect();
+    let mut bows = vec![];
+    for i in 0..len {
+        let b0 = buf.to_curr_byte_idx(i);
+        let b1 = buf.to_curr_byte_idx(i + 1);
+        bows.push(buf.can_bow(b0));
+        for b in b0 + 1..b1 {
+            if buf.can_bow(b) {
+                fails.push(format!("continuation byte {} of character {} can start a word", b, i));
+            }
+        }
+    }
+    // independent oracle: classes = union of the generated definition, continuity = greedy left-to-right segmentation
+    for i in 0..len {
+        let mut want = bits(&cfg.chars[&chars[i]]);
+        if want == 0 {
+            want = 1;
+        }
+        if cats[i] != want {
+            fails.push(format!("character {} U+{:04X}: classes {:#x}, definition says {:#x}", i, chars[i] as u32, cats[i], want));
+        }
+    }
+    let mut spec = vec![0usize; len];
+    let mut start = 0;
+    while start < len {
+        let mut common = cats[start];
+        let mut end = start + 1;
+        while end < len && common & cats[end] != 0 {
+            common &= cats[end];
+            end += 1;
+        }
+        for i in start..end {
+            spec[i] = end - i;
+        }
+        start = end;
+    }
+    if spec != conts {
+        fails.push(format!("cat_continuous_len = {:?} but the left-to-right class runs give {:?} (classes {:x?})", conts, spec, cats));
+    }
+    let multi = cats.iter().any(|c| (c & 0x3FFF_FFFF).count_ones() > 1);
+    if multi {
+        tags.push("text_has_multi_class_char".into());
+    }
+    if cats.iter().any(|c| c & 0x3FFF_FFFF == 0x3FFF_FFFF) {
+        tags.push("text_has_class_ALL_char".into());
+    }
+    if cats.iter().any(|c| c & (1 << 30) != 0) {
+        tags.push("text_has_NOOOVBOW".into());
+    }
+    if cats.iter().any(|c| c & (1 << 31) != 0) {
+        tags.push("text_has_NOOOVBOW2".into());
+    }
+    if conts.iter().any(|c| *c > 64) {
+        tags.push("run_longer_than_64".into());
+    }
+    // ---------------- regex oracle per provider and offset
+    let mut prov_terms = vec![];
+    for p in &cfg.provs {
+        prov_terms.push(match p {
+            Prov::Mecab => {
+                let cis = clist(cfg.infos.iter().map(|ci| format!("mkCI {} {} {} {}", cn(CLASSES[ci.class].1), cbool(ci.invoke), cbool(ci.group), cnat(ci.length as usize))));
+                // HashMap<CategoryType, Vec<OOV>>: lines of one class in file order
+                let mut groups: Vec<(usize, Vec<&OovDef>)> = vec![];
+                for (k, d) in &cfg.unks {
+                    match groups.iter_mut().find(|g| g.0 == *k) {
+                        Some(g) => g.1.push(d),
+                        None => groups.push((*k, vec![d])),
+                    }
+                }
+                let oovs = clist(groups.iter().map(|(k, ds)| cpair(&cn(CLASSES[*k].1), &clist(ds.iter().map(|d| cdef(d))))));
+                format!("PMecab (mkMecab {} {})", cis, oovs)
+            }
+            Prov::Simple(d) => format!("PSimple {}", cdef(d)),
+            Prov::Regex { def, pat, maxlen, strict, debug } => {
+                let ml = maxlen.unwrap_or(32);
+                let ms = clist((0..len).map(|off| {
+                    let end = usize::min(len, off.saturating_add(ml));
+                    match find(pat, &chars[off..end]) {
+                        None => "None".to_string(),
+                        Some((s, e)) => format!("Some ({}, {})", cbool(s == 0), cnat(e)),
+                    }
+                }));
+                format!("PRegex (mkRegex {} {} {} {} {})", cdef(def), copt(maxlen.map(cnat)), cbool(strict.unwrap_or(true)), cbool(*debug), ms)
+            }
+        });
+    }
+    // ---------------- direct provider calls
+    let provs = dict.oov_provider_plugins();
+    let mut offsets: Vec<usize> = (0..len).collect();
+    if len > 10 {
+        offsets = vec![0, 1, len - 1, len.saturating_sub(2), len.saturating_sub(64), len.saturating_sub(65)];
+        for _ in 0..5 {
+            offsets.push(rng.below(len as u64) as usize);
+        }
+        // positions from which the class run has about MAX_VALUE characters left
+        for i in 0..len {
+            if (62..=66).contains(&conts[i]) {
+                offsets.push(i);
+            }
+        }
+        offsets.sort();
+        offsets.dedup();
+    }
+    let mut call_terms = vec![];
+    let mut ncalls_nonempty = 0;
+    for (pi, p) in provs.iter().enumerate() {
+        for &off in &offsets {
+            let near_max = (62..=66).contains(&conts[off]);
+            let nvar = if near_max { 7 } else if len > 10 { 2 } else { 3 };
+            for var in 0..nvar {
+                // lengths already "created" at this offset and the matching pre-filled result vector
+                let mut pre: Vec<usize> = vec![];
+                if var >= 3 {
+                    // around the saturation point of the bit set: one long word of a fixed length
+                    pre.push([70usize, 65, 64, 63][var - 3]);
+                } else if var > 0 {
+                    let cands = [1usize, 2, 3, 5, 63, 64, 65, 70, len - off, conts[off]];
+                    for _ in 0..1 + rng.below(3) {
+                        let l = *rng.pick(&cands);
+                        if l >= 1 && off + l <= len.max(off + 1) + 70 {
+                            pre.push(l);
+                        }
+                    }
+                }
+                let mut other = CreatedWords::empty();
+                let mut other_bits: u64 = 0;
+                for l in &pre {
+                    other = other.add_word(*l as i64);
+                    other_bits |= 1u64 << usize::min(l - 1, 63);
+                }
+                // the result vector normally mirrors `other`; sometimes it does not (a long word of another length)
+                let mut pre_nodes: Vec<usize> = pre.iter().map(|l| off + l).collect();
+                if var == 2 && rng.chance(1, 2) {
+                    pre_nodes.retain(|e| *e != off + 70);
+                }
+                let mut result: Vec<Node> = pre_nodes.iter().map(|e| Node::new(off as u16, *e as u16, 0, 0, 0, WordId::new(0, 0))).collect();
+                let npre = result.len();
+                let r = catch(|| p.provide_oov(&buf, off, other, &mut result).map_err(|e| format!("{:?}", e)));
+                let out: Result<Result<Vec<ONode>, String>, String> = match r {
+                    Ok(Ok(n)) => {
+                        if n != result.len() - npre {
+                            fails.push(format!("provider {} at {} reports {} nodes but pushed {}", pi, off, n, result.len() - npre));
+                        }
+                        Ok(Ok(result[npre..].iter().map(|n| to_onode(dict, n)).collect()))
+                    }
+                    Ok(Err(e)) => Ok(Err(e)),
+                    Err(e) => Err(e),
+                };
+                if let Ok(Ok(v)) = &out {
+                    if !v.is_empty() {
+                        ncalls_nonempty += 1;
+                    }
+                    for n in v {
+                        if n.pos == usize::MAX {
+                            fails.push(format!("provider {} at {}: candidate with a part of speech that no definition names", pi, off));
+                        }
+                    }
+                }
+                if let Err(msg) = &out {
+                    if !msg.contains("raw > 0") {
+                        fails.push(format!("provider {} panics at offset {}: {}", pi, off, msg));
+                    }
+                    // only seen for a pattern that matches the empty string: has_word(0) trips debug_assert!(raw > 0) in
+                    // CreatedWords::single -- a totality defect (C03), the model reproduces it as RPanic
+                    tags.push("provider_call_panics(regex_empty_match,C03)".into());
+                }
+                if verbose {
+                    println!("provider {} offset {} other={:#x} pre={:?} -> {:?}", pi, off, other_bits, pre_nodes, out);
+                }
+                call_terms.push(format!(
+                    "({}, {}, {}, {}, {})",
+                    cnat(pi),
+                    cnat(off),
+                    cn(other_bits),
+                    clist(pre_nodes.iter().map(|e| cnat(*e))),
+                    cres(&out, |v| clist(v.iter().map(cnode)))
+                ));
+            }
+        }
+    }
+    // ---------------- whole lattice through a real tokenization
+    let dict_ends: Vec<Vec<usize>> = (0..len)
+        .map(|off| {
+            let mut v: Vec<(usize, usize)> = vec![];
+            for (k, w) in cfg.words.iter().enumerate() {
+                let wc: Vec<char> = w.chars().collect();
+                if off + wc.len() <= len && chars[off..off + wc.len()] == wc[..] {
+                    v.push((off + wc.len(), k));
+                }
+            }
+            v.sort();
+            v.into_iter().map(|x| x.0).collect()
+        })
+        .collect();
+    let mut tok = StatefulTokenizer::create(dict, false, Mode::C);
+    tok.reset().push_str(text);
+    let tr = catch(|| tok.do_tokenize().map_err(|e| format!("{:?}", e)));
+    let lat: Result<Result<Vec<Vec<ONode>>, String>, String> = match &tr {
+        Ok(Ok(())) => {
+            let l = tok.verif_lattice();
+            let mut per: Vec<Vec<ONode>> = vec![vec![]; len];
+            for end in 0..l.verif_size() {
+                for vn in l.verif_nodes(end) {
+                    let oov = vn.word_id >> 28 == 0xF;
+                    per[vn.begin].push(ONode {
+                        begin: vn.begin,
+                        end: vn.end,
+                        left: vn.left_id,
+                        right: vn.right_id,
+                        cost: vn.cost,
+                        pos: if oov { pos_index(dict, vn.word_id & 0x0FFF_FFFF) } else { 0 },
+                        dict: !oov,
+                    });
+                }
+            }
+            Ok(Ok(per))
+        }
+        Ok(Err(e)) => Ok(Err(e.clone())),
+        Err(e) => Err(e.clone()),
+    };
+    match &lat {
+        Ok(Ok(per)) => {
+            if per.iter().flatten().any(|n| !n.dict) {
+                tags.push("lattice_has_oov_nodes".into());
+            }
+            // OOV morphemes of the best path: is_oov, dictionary -1, the configured part of speech, the text as all forms
+            let mut ml = MorphemeList::empty(dict);
+            if ml.collect_results(&mut tok).is_ok() {
+                for m in ml.iter() {
+                    if m.is_oov() {
+                        tags.push("oov_morpheme".into());
+                        let surf = m.surface().to_string();
+                        let pos_ok = POS_POOL.iter().any(|p| p.iter().zip(m.part_of_speech().iter()).all(|(a, b)| a == b));
+                        if m.dictionary_id() != -1 || !pos_ok || m.normalized_form() != surf || m.dictionary_form() != surf || m.reading_form() != surf {
+                            fails.push(format!(
+                                "OOV morpheme {:?}: dictionary {} pos {:?} normalized {:?} dictionary form {:?} reading {:?}",
+                                surf,
+                                m.dictionary_id(),
+                                m.part_of_speech(),
+                                m.normalized_form(),
+                                m.dictionary_form(),
+                                m.reading_form()
+                            ));
+                        }
+                    } else if m.dictionary_id() < 0 {
+                        fails.push(format!("dictionary morpheme {:?} reports dictionary {}", m.surface().to_string(), m.dictionary_id()));
+                    }
+                }
+            }
+        }
+        Ok(Err(e)) => tags.push(format!("tokenize_err:{}", e.split('(').next().unwrap_or(""))),
+        Err(msg) => {
+            if !msg.contains("raw > 0") {
+                fails.push(format!("tokenization panics: {}", msg));
+            }
+            tags.push("tokenize_panics(regex_empty_match,C03)".into())
+        }
+    }
+    if verbose {
+        println!("classes   : {:x?}\ncan_bow   : {:?}\ncontinuity: {:?}\nleft-to-right runs give: {:?}", cats, bows, conts, spec);
+        println!("lexicon matches per position (ends): {:?}", dict_ends);
+        println!("lattice (nodes by begin): {:?}", lat);
+    }
+    let term = format!(
+        "check_case {} {} {} {} {} {} {}",
+        clist(cats.iter().map(|c| cn(*c))),
+        clist(bows.iter().map(|b| cbool(*b).to_string())),
+        clist(conts.iter().map(|c| cnat(*c))),
+        clist(prov_terms),
+        clist(call_terms),
+        clist(dict_ends.iter().map(|v| clist(v.iter().map(|e| cnat(*e))))),
+        cres(&lat, |per| clist(per.iter().map(|v| clist(v.iter().map(cnode)))))
+    );
+    let desc = json!({"kind": "c13", "config_seed": cfg.seed, "text": text, "char_def": cfg.char_def, "unk_def": cfg.unk_def,
+                      "oovProviderPlugin": cfg.plugins, "words": cfg.words});
+    CaseOut { term, desc, nontrivial: multi || ncalls_nonempty > 0, fails, tags }
+}
+
+fn emit(sink: &mut Sink, mut desc: Value, extra: Value, out: CaseOut) {
+    for (k, v) in extra.as_object().unwrap() {
+        desc[k] = v.clone();
+    }
+    for t in &out.tags {
+        sink.tag(t);
+    }
+    let id = sink.case(out.term, desc, out.nontrivial);
+    for f in out.fails {
+        sink.fail(id, &f, "");
+    }
+}
+
+pub fn run(args: &Args) {
+    let mut sink = Sink::new("C13", &args.out, &["Model.Oov"], args.seed, &args.tier);
+    sink.shard_size = 40;
+    sink.rule("generated char.def (24 code points incl. combining marks, skin-tone modifier, VS16, ZWJ, 4-byte emoji; natural or random class sets with several classes per character, class ALL, NOOOVBOW, NOOOVBOW2; classes without definition) x unk.def (0..3 definitions per class, invoke/group/length 0..80) x 1..3 providers in random order (MeCab, Simple, Regex with strict/relaxed boundaries, max length, debug, patterns with backtracking / alternation / empty match) x small random lexicon x texts (dictionary words, class runs, base+marks, lone marks, runs > 64); each case observes the built InputBuffer, every provider through the trait at all (or sampled) offsets with several CreatedWords, and the lattice of a real tokenization; non-trivial = the text has a character with several classes or some provider call produced a candidate; distinct by generated Coq term");
+    if let Some(p) = &args.replay {
+        let v: Value = serde_json::from_str(&std::fs::read_to_string(p).unwrap()).unwrap();
+        let case = &v["case"];
+        if case["kind"] == "c13-forms" {
+            let mut rng = Rng::new(args.seed);
+            println!("re-running the normalized-forms stream (implementation only); failing text was {}", case["text"]);
+            normalized_forms_stream(&mut sink, &mut rng, args);
+            cleanup(args);
+            sink.finish();
+            return;
+        }
+        let directed = case["directed"].as_u64().unwrap_or(0) as u32;
+        let cfg = gen_config(case["config_seed"].as_u64().unwrap(), &args.work, directed);
+        println!("char.def:\n{}\nunk.def:\n{}\nproviders: {}\nlexicon: {:?}", cfg.char_def, cfg.unk_def, cfg.plugins, cfg.words);
+        if let Some(e) = &cfg.load_error {
+            println!("configuration does not load: {}", e);
+            let id = sink.case_rust_only(case.clone(), false);
+            sink.fail(id, &format!("well-formed configuration rejected: {}", e), "");
+            cleanup(args);
+            sink.finish();
+            return;
+        }
+        let text = case["text"].as_str().unwrap().to_string();
+        println!("text: {:?}", text);
+        let mut rng = Rng::new(case["call_seed"].as_u64().unwrap_or(0));
+        let out = run_case(&cfg, &text, &mut rng, true);
+        for f in &out.fails {
+            println!("implementation oracle: {}", f);
+        }
+        println!("Coq term:\n{}", out.term);
+        emit(&mut sink, out.desc.clone(), json!({"directed": directed, "call_seed": case["call_seed"]}), out);
+        cleanup(args);
+        sink.finish();
+        return;
+    }
+    let mut rng = Rng::new(args.seed);
+    // directed cases first (the shipped shape of the definitions; base + modifier + other class; double ZWJ; long run)
+    let dcfg = gen_config(7, &args.work, 1);
+    if let Some(e) = &dcfg.load_error {
+        let id = sink.case_rust_only(json!({"kind": "c13", "config_seed": 7, "directed": 1}), false);
+        sink.fail(id, &format!("directed configuration rejected: {}", e), "");
+    } else {
+        for d in 1..=6u32 {
+            let mut r = Rng::new(d as u64);
+            let text = gen_text(&mut r, &dcfg, d);
+            let cs = 1000 + d as u64;
+            let mut cr = Rng::new(cs);
+            let out = run_case(&dcfg, &text, &mut cr, false);
+            sink.tag("directed");
+            emit(&mut sink, out.desc.clone(), json!({"directed": d, "call_seed": cs}), out);
+        }
+    }
+    let nconfigs = args.n(250, 3000);
+    let per = 4;
+    for _ in 0..nconfigs {
+        let cseed = rng.next();
+        let cfg = gen_config(cseed, &args.work, 0);
+        if let Some(e) = &cfg.load_error {
+            let id = sink.case_rust_only(json!({"kind": "c13", "config_seed": cseed, "char_def": cfg.char_def, "unk_def": cfg.unk_def, "oovProviderPlugin": cfg.plugins, "text": ""}), false);
+            sink.fail(id, &format!("well-formed configuration rejected: {}", e), "");
+            continue;
+        }
+        sink.tag(&format!("providers={}", cfg.provs.iter().map(|p| match p { Prov::Mecab => "M", Prov::Simple(_) => "S", Prov::Regex { .. } => "R" }).collect::<String>()));
+        for _ in 0..per {
+            let text = gen_text(&mut rng, &cfg, 0);
+            let cs = rng.next();
+            let mut cr = Rng::new(cs);
+            let out = run_case(&cfg, &text, &mut cr, false);
+            emit(&mut sink, out.desc.clone(), json!({"directed": 0, "call_seed": cs}), out);
+        }
+    }
+    normalized_forms_stream(&mut sink, &mut rng, args);
+    cleanup(args);
+    sink.finish();
+}
+
+/// Implementation-only stream: with the default input-text plugin the analysed text differs from the original one
+/// (full-width / upper-case letters are normalised); an OOV morpheme must report the *normalised* text as its normalized,
+/// dictionary and reading forms, the original text as its surface, dictionary -1 and the configured part of speech.
+fn normalized_forms_stream(sink: &mut Sink, rng: &mut Rng, args: &Args) {
+    let dir = args.work.join(format!("c13res-{}", std::process::id()));
+    std::fs::create_dir_all(&dir).unwrap();
+    let rewrite = std::fs::read_to_string(format!("{}/resources/rewrite.def", repo())).unwrap_or_default();
+    std::fs::write(dir.join("rewrite.def"), rewrite).unwrap();
+    std::fs::write(dir.join("char.def"), "DEFAULT 0 1 0\n0x0061..0x007A ALPHA\n0x0030..0x0039 NUMERIC\n0x4E00..0x9FA5 KANJI\n").unwrap();
+    let cj = json!({"path": dir.to_string_lossy(), "characterDefinitionFile": "char.def",
+        "inputTextPlugin": [{"class": "com.worksap.nlp.sudachi.DefaultInputTextPlugin"}],
+        "oovProviderPlugin": [{"class": "com.worksap.nlp.sudachi.SimpleOovPlugin", "oovPOS": POS_POOL[3], "leftId": 0, "rightId": 0, "cost": 100, "userPOS": "allow"}]});
+    let r = catch(|| -> Result<JapaneseDictionary, String> {
+        let mut b = DictBuilder::new_system();
+        b.read_conn("1 1\n0 0 0\n".as_bytes()).map_err(|e| format!("{:?}", e))?;
+        b.read_lexicon("た,0,0,100,た,名詞,普通名詞,一般,*,*,*,タ,た,*,A,*,*,*,*\n".as_bytes()).map_err(|e| format!("{:?}", e))?;
+        b.resolve().map_err(|e| format!("{:?}", e))?;
+        let mut bytes = Vec::new();
+        b.compile(&mut bytes).map_err(|e| format!("{:?}", e))?;
+        let c = ConfigBuilder::from_bytes(cj.to_string().as_bytes()).map_err(|e| format!("{:?}", e))?.build();
+        JapaneseDictionary::from_cfg_storage(&c, SudachiDicData::new(Storage::Owned(bytes))).map_err(|e| format!("{:?}", e))
+    });
+    let dict = match r {
+        Ok(Ok(d)) => d,
+        other => {
+            let id = sink.case_rust_only(json!({"kind": "c13-forms", "text": ""}), false);
+            sink.fail(id, &format!("configuration with the default input-text plugin does not load: {:?}", other.err().or_else(|| Some("error".into()))), "");
+            return;
+        }
+    };
+    // (original, normalised) pairs of single characters
+    let pairs: [(&str, &str); 10] = [("A", "a"), ("Ｂ", "b"), ("ｃ", "c"), ("d", "d"), ("Ｚ", "z"), ("１", "1"), ("7", "7"), ("京", "京"), ("Q", "q"), ("ｘ", "x")];
+    for _ in 0..args.n(60, 600) {
+        let n = 1 + rng.below(6) as usize;
+        let mut orig = String::new();
+        let mut norm = String::new();
+        for _ in 0..n {
+            let (o, m) = rng.pick(&pairs);
+            orig.push_str(o);
+            norm.push_str(m);
+        }
+        let mut tok = StatefulTokenizer::create(&dict, false, Mode::C);
+        tok.reset().push_str(&orig);
+        let desc = json!({"kind": "c13-forms", "text": orig});
+        let id = sink.case_rust_only(desc, orig != norm);
+        sink.tag("normalized_forms_stream");
+        match catch(|| tok.do_tokenize().map_err(|e| format!("{:?}", e))) {
+            Ok(Ok(())) => {
+                let mut ml = MorphemeList::empty(&dict);
+                ml.collect_results(&mut tok).unwrap();
+                let mut surf = String::new();
+                let mut forms = String::new();
+                for m in ml.iter() {
+                    surf.push_str(&m.surface());
+                    if !m.is_oov() {
+                        sink.fail(id, &format!("{:?}: morpheme {:?} is not OOV although the lexicon cannot match", orig, m.surface().to_string()), "");
+                        continue;
+                    }
+                    let nf = m.normalized_form().to_string();
+                    if m.dictionary_form() != nf || m.reading_form() != nf {
+                        sink.fail(id, &format!("{:?}: forms of an OOV morpheme differ: {:?} {:?} {:?}", orig, nf, m.dictionary_form(), m.reading_form()), "");
+                    }
+                    if m.dictionary_id() != -1 || m.part_of_speech().iter().zip(POS_POOL[3].iter()).any(|(a, b)| a != b) {
+                        sink.fail(id, &format!("{:?}: OOV morpheme reports dictionary {} / part of speech {:?}", orig, m.dictionary_id(), m.part_of_speech()), "");
+                    }
+                    forms.push_str(&nf);
+                }
+                if surf != orig || forms != norm {
+                    sink.fail(id, &format!("{:?}: surfaces concatenate to {:?}, forms to {:?}, normalised text is {:?}", orig, surf, forms, norm), "");
+                }
+            }
+            other => sink.fail(id, &format!("{:?}: tokenization failed: {:?}", orig, other), ""),
+        }
+    }
+}
+
+fn cleanup(args: &Args) {
+    let _ = std::fs::remove_dir_all(args.work.join(format!("c13res-{}", std::process::id())));
 }
